@@ -3,6 +3,7 @@ package sim
 import (
 	"bytes"
 	_ "embed"
+	"encoding/base64"
 	"encoding/hex"
 	"encoding/json"
 	"fmt"
@@ -329,6 +330,42 @@ func runC16(rc *RunCtx) {
 				copy(vb[0:4], [][]byte{{0, 0, 0, 0}, {0, 0, 0, 1}, {0, 0, 0, 2}, {1, 0, 0, 0}, {0, 0, 0, 3}, {0xff, 0xff, 0xff, 0xff}}[(k/3)%6])
 				c16Message(rc, vb, "version-prefixed")
 				c16Burn(rc, vb, "version-prefixed")
+			}
+		}
+	}
+	// inputs over restricted alphabets: a message is an opaque byte string, so bytes that happen to read as text - hex digits
+	// with or without "0x", base64, decimal digits, JSON, blanks - are wire bytes like any others, at every length (a decoder
+	// that sniffs the content and re-interprets a textual form would misparse or refuse them)
+	alphabets := []struct{ name, lead, set string }{
+		{"hex-lower", "", "0123456789abcdef"}, {"hex-upper", "", "0123456789ABCDEF"}, {"0x-hex", "0x", "0123456789abcdef"}, {"0X-HEX", "0X", "0123456789ABCDEF"},
+		{"0x-hex-mixed", "0x", "0123456789abcdefABCDEF"}, {"base64", "", "ABCDEFGHIJKLMNOPQRSTUVWXYZabcdefghijklmnopqrstuvwxyz0123456789+/"}, {"base64url-padded", "", "ABCDwxyz0189-_="},
+		{"decimal", "", "0123456789"}, {"json-string", "\"0x", "0123456789abcdef"}, {"json-object", "{\"message\":\"", "0123456789abcdef\""}, {"blank", "", " \t\n"}, {"zeros-text", "", "0"},
+	}
+	for _, l := range []int{0, 1, 2, 3, 4, 64, 115, 116, 117, 118, 130, 131, 132, 133, 134, 200, 232, 233, 234, 235, 248, 249, 250, 258, 264, 266, 300, 400, 498, 8002} {
+		for ai, al := range alphabets {
+			for k := 0; k < 2; k++ {
+				bz := make([]byte, l)
+				for j := range bz {
+					bz[j] = al.set[(j*7+k*3+ai+int(bz[max(j-1, 0)]))%len(al.set)]
+				}
+				copy(bz, al.lead)
+				c16Message(rc, bz, "text-"+al.name)
+				c16Burn(rc, bz, "text-"+al.name)
+				rc.Cov.Cell("C16_text_like_inputs", al.name)
+			}
+		}
+	}
+	// ... and the textual renderings of a valid message / burn body (what an API hands out) are not that message
+	for k := 0; k < 6; k++ {
+		m := &ref.Message{Version: 0, SrcDomain: uint32(k), DstDomain: 4, Nonce: uint64(100 + k), Sender: Structured32(0x11), Recipient: Structured32(0x22), Caller: make([]byte, 32), Body: structured(k*33, byte(k))}
+		wire, _ := ref.EncodeMessage(m)
+		burn := BurnBody(0, Token(k), Structured32(0x55), big.NewInt(int64(1000+k)), Structured32(0x66))
+		for _, raw := range [][]byte{wire, burn} {
+			h := hex.EncodeToString(raw)
+			for _, txt := range []string{"0x" + h, h, "0X" + strings.ToUpper(h), "0x" + h + "\n", "\"0x" + h + "\"", base64.StdEncoding.EncodeToString(raw), "0x" + h + h} {
+				c16Message(rc, []byte(txt), "text-rendering")
+				c16Burn(rc, []byte(txt), "text-rendering")
+				rc.Cov.Cell("C16_text_like_inputs", "rendering-of-a-valid-value")
 			}
 		}
 	}
